@@ -19,6 +19,12 @@ CLAIMED["C07"] = ("ckpt", "exploration",
    "No concurrency is involved; the simulation content is the crash/restore and storage-fault model. Reference = uninterrupted instance of the same code (transparency is relative by definition). Documented Keccak misuse panics (Write/Sum after Read on a squeezing state) are not counted.",
    "DESIGN.md section 4 H-ckpt")
 
+CLAIMED["C31"] = ("rekey", "exploration",
+   "deterministic simulation: seeded schedules of concurrent writers x key re-exchanges x link stalls on a real client/server pair, per-stream reference logs, wire-history oracle, quiescence liveness oracle",
+   "A real ssh client and server run on a simulated link with 1-16 concurrent application streams (channel data, stderr data, global and channel requests) from both sides while key exchanges are triggered by byte thresholds from the 256-byte minimum upward, explicitly, and by both sides at once; one link direction is stalled while an exchange is open so that the 64-packet pending queue fills and writers park. Oracles: every stream arrives exactly once and in order (position-dependent content); the independent wire monitor decodes every packet and checks that no application packet is sent between a side's KEXINIT and its NEWKEYS; at quiescence, after stalls are released and with all readers draining, no writer is still blocked. Seeded sampling of schedules, not exhaustive.",
+   "Trusted: scheduler, instrumenter (validated by the repository's own tests on the instrumented copy), wire monitor (independent RFC implementation), synctest quiescence detection. Application layers are harness stubs.",
+   "DESIGN.md section 4 H-rekey")
+
 NA = {
  "C01": "pure function of (key, nonce, plaintext, ad): no schedule, clock, peer, stream fault or persisted state for a simulator to own; needs an independent AEAD and input generation (differential testing)",
  "C02": "pure predicate over byte strings; tampering here is input mutation, not an in-flight fault on a stateful stream",
@@ -60,7 +66,7 @@ NA = {
 }
 
 PLANNED = {
- "C25": "H-wire", "C26": "H-wire", "C29": "H-kex", "C30": "H-kex", "C31": "H-rekey",
+ "C25": "H-wire", "C26": "H-wire", "C29": "H-kex", "C30": "H-kex", 
  "C32": "H-sauth", "C33": "H-sauth", "C34": "H-cauth", "C35": "H-flow", "C36": "H-mux",
  "C43": "H-agent", "C47": "H-otr", "C50": "H-acme", "C51": "H-autocert",
 }
